@@ -7,7 +7,9 @@ import (
 	"encoding/json"
 	"fmt"
 	"io"
+	"os"
 	"sort"
+	"strings"
 	"sync"
 	"time"
 
@@ -178,6 +180,9 @@ func (w *World) CanonicalLogHash() (string, int) {
 	}
 	w.mu.Unlock()
 	sort.Strings(lines)
+	if f := os.Getenv("VERIF_DUMPLOG"); f != "" { // determinism debugging: keep the text that is hashed
+		_ = os.WriteFile(f, []byte(strings.Join(lines, "\n")+"\n"), 0o600)
+	}
 	h := sha256.New()
 	for _, l := range lines {
 		_, _ = io.WriteString(h, l)
@@ -214,7 +219,11 @@ func (r *WireRec) canon() string {
 		s += fmt.Sprintf(" ad %s/%s cancel=%v t=%d", r.Ad.NodeID, r.Ad.Service, r.Ad.Cancel, r.Ad.Time.UnixNano())
 	}
 	if r.Type == MsgData {
-		s += fmt.Sprintf(" hops=%d to=%q", r.Hops, r.DataTo)
+		to := r.DataTo
+		if len(to) == 8 && to != "abcdefgh" {
+			to = "<8 chars>" // ephemeral service names are random
+		}
+		s += fmt.Sprintf(" hops=%d to=%q", r.Hops, to)
 	}
 	return s
 }
@@ -229,7 +238,11 @@ func (r *WireRec) canonLen() int {
 }
 
 func (w *World) record(l *Link, gen int, from, to string, data []byte, fate string) *WireRec {
-	r := &WireRec{At: w.Now(), Link: l.Name, Gen: gen, From: from, To: to, Type: -1, Len: len(data), Fate: fate}
+	return w.recordAt(w.Now(), l, gen, from, to, data, fate)
+}
+
+func (w *World) recordAt(at time.Duration, l *Link, gen int, from, to string, data []byte, fate string) *WireRec {
+	r := &WireRec{At: at, Link: l.Name, Gen: gen, From: from, To: to, Type: -1, Len: len(data), Fate: fate}
 	if len(data) > 0 {
 		r.Type = int(data[0])
 		switch data[0] {
@@ -430,6 +443,7 @@ type Session struct {
 	sendWake chan struct{} // wakes a Send parked by BlockPeerSend when the session ends (never shared with Recv: a wake-up taken by the wrong waiter is a lost message)
 	sendN    int
 	lastAt   time.Duration
+	batch    []sendItem    // messages handed over at the current instant, not yet put on the wire (see flush)
 	blocked  chan struct{} // non-nil: Send waits until it is closed (back-pressure from a peer that does not read)
 }
 
@@ -491,7 +505,48 @@ func (s *Session) push(data []byte, eof bool, rec *WireRec) {
 	s.wake()
 }
 
-// Send implements BackendSession.
+// sendItem is one message waiting for the end of the instant it was sent in.
+type sendItem struct {
+	data []byte
+	at   time.Duration
+}
+
+// tieKey is the canonical identity of a message for ordering messages that were handed to one link in
+// one instant: the same fields the canonical log shows (random identifiers left out).
+func tieKey(data []byte) string {
+	if len(data) == 0 {
+		return ""
+	}
+	switch data[0] {
+	case MsgRoute:
+		ru := &RoutingUpdate{}
+		if json.Unmarshal(data[1:], ru) == nil {
+			conns := make([]string, 0, len(ru.Connections))
+			for k, v := range ru.Connections {
+				conns = append(conns, fmt.Sprintf("%s=%v", k, v))
+			}
+			sort.Strings(conns)
+			return fmt.Sprintf("1 %s %d %d %s %v %v", ru.NodeID, ru.UpdateEpoch>>24, ru.UpdateSequence, ru.ForwardingNode, ru.SuspectedDuplicate != 0, conns)
+		}
+	case MsgAd:
+		ad := &ServiceAd{}
+		if json.Unmarshal(data[1:], ad) == nil {
+			return fmt.Sprintf("2 %s %s %v %d", ad.NodeID, ad.Service, ad.Cancel, ad.Time.UnixNano())
+		}
+	case MsgData:
+		if len(data) >= 2 {
+			return fmt.Sprintf("0 %d %d", data[1], len(data))
+		}
+	}
+	return fmt.Sprintf("%d %d", data[0], len(data))
+}
+
+// Send implements BackendSession.  Messages handed over by different goroutines of a node in one instant
+// of simulated time have no order the simulator decides (the Go scheduler picks it), so they are collected
+// until the instant is over - the flush timer fires only once every goroutine of the bubble is idle - and put
+// on the wire in canonical order.  Messages handed over by one goroutine keep their order unless the canonical
+// key says otherwise, which for the single writer goroutine of a connection is the same thing seen from the
+// receiver: one instant, one batch.
 func (s *Session) Send(data []byte) error {
 	s.mu.Lock()
 	for s.blocked != nil && !s.closed && !s.severed {
@@ -507,32 +562,78 @@ func (s *Session) Send(data []byte) error {
 		s.mu.Unlock()
 		return fmt.Errorf("session closed")
 	}
-	n := s.sendN
-	s.sendN++
-	s.mu.Unlock()
 	if s.w.OverBudget() {
 		// the run has blown its message budget (a flood that does not terminate):
 		// swallow everything so the run can end and report it
+		s.mu.Unlock()
 		s.w.Count("fate_budget", 1)
 		return nil
 	}
-	cp := append([]byte(nil), data...)
-	fate, delay, dupDelay := s.l.fateOf(s.gen, s.side, n)
-	rec := s.w.record(s.l, s.gen, s.name, s.peer.name, cp, fate)
-	switch fate {
-	case "silent", "drop":
-		return nil
-	}
-	s.schedule(cp, delay, rec)
-	if fate == "dup" {
-		s.schedule(append([]byte(nil), cp...), dupDelay, rec)
+	s.batch = append(s.batch, sendItem{append([]byte(nil), data...), s.w.Now()})
+	first := len(s.batch) == 1
+	s.mu.Unlock()
+	if first {
+		time.AfterFunc(time.Nanosecond, s.flush)
 	}
 	return nil
 }
 
-func (s *Session) schedule(data []byte, delay time.Duration, rec *WireRec) {
+// flush puts the messages of the finished instant on the wire.
+func (s *Session) flush() {
+	s.mu.Lock()
+	batch := s.batch
+	s.batch = nil
+	gone := s.severed
+	s.mu.Unlock()
+	if gone || len(batch) == 0 {
+		return
+	}
+	if len(batch) > 1 {
+		keys := make([]string, len(batch))
+		for i := range batch {
+			keys[i] = tieKey(batch[i].data)
+		}
+		idx := make([]int, len(batch))
+		for i := range idx {
+			idx[i] = i
+		}
+		sort.SliceStable(idx, func(a, b int) bool {
+			if batch[idx[a]].at != batch[idx[b]].at {
+				return batch[idx[a]].at < batch[idx[b]].at
+			}
+			return keys[idx[a]] < keys[idx[b]]
+		})
+		sorted := make([]sendItem, len(batch))
+		for i, j := range idx {
+			sorted[i] = batch[j]
+		}
+		batch = sorted
+		s.w.Count("same_instant_batches", 1)
+	}
+	for _, it := range batch {
+		s.mu.Lock()
+		n := s.sendN
+		s.sendN++
+		s.mu.Unlock()
+		fate, delay, dupDelay := s.l.fateOf(s.gen, s.side, n)
+		rec := s.w.recordAt(it.at, s.l, s.gen, s.name, s.peer.name, it.data, fate)
+		switch fate {
+		case "silent", "drop":
+			continue
+		}
+		s.scheduleFrom(it.at, it.data, delay, rec)
+		if fate == "dup" {
+			s.scheduleFrom(it.at, append([]byte(nil), it.data...), dupDelay, rec)
+		}
+	}
+}
+
+func (s *Session) scheduleFrom(sent time.Duration, data []byte, delay time.Duration, rec *WireRec) {
 	now := s.w.Now()
-	at := now + delay
+	at := sent + delay
+	if at <= now {
+		at = now + time.Nanosecond
+	}
 	s.mu.Lock()
 	if s.l.fifo() && at <= s.lastAt {
 		at = s.lastAt + time.Nanosecond
@@ -594,6 +695,7 @@ func (s *Session) Close() error {
 	sev := s.severed
 	s.q = nil
 	s.mu.Unlock()
+	s.flush() // what was sent before the close is in flight
 	s.wake()
 	if !sev {
 		s.w.Event("link %s#%d closed by %s", s.l.Name, s.gen, s.name)
